@@ -436,6 +436,10 @@ func (res *Resource) Purge(keepExtra int) { //nolint:gocognit
 		}
 	}
 
+	// The boundary search expects the versions to be sorted, newest first.
+	// This is only guaranteed directly after selectVersion().
+	sort.Sort(res)
+
 	// Safeguard the amount of extra version to keep.
 	if keepExtra < 2 {
 		keepExtra = 2
